@@ -55,8 +55,9 @@ func VH_C18() {
 			if vBool() {
 				d += "/" // a mapping may be registered with a trailing slash
 			}
-			AddKnownPathMapping(d, "~w")
-			prot = append(prot, mp{d, "~w"})
+			repl := []string{"~w", "<a-long-replacement>"}[vChoose(2)] // the replacement may be longer than the prefix
+			AddKnownPathMapping(d, repl)
+			prot = append(prot, mp{d, repl})
 			if vBool() {
 				RemoveKnownPathMapping(d)
 				prot = prot[:len(prot)-1]
